@@ -1,10 +1,11 @@
-// ddscan: developer tool - lists constructs of interest.
+// ddscan: developer tool - lists partial operations in reachable module code.
 package main
 
 import (
 	"fmt"
+	"go/token"
+	"go/types"
 	"os"
-	"strings"
 
 	"ddcheck/core"
 
@@ -18,34 +19,53 @@ func main() {
 		os.Exit(2)
 	}
 	c := core.NewCanon(p)
-	fields := []string{".Elements", ".TextBlocks", ".TextElements", ".textNodes", ".TextNodes"}
+	reach := p.ReachableFrom(p.EntryPoints()...)
 	for _, fn := range p.ModFunctions(false) {
+		if !reach[fn] {
+			continue
+		}
 		for _, b := range fn.Blocks {
 			for _, in := range b.Instrs {
-				if st, ok := in.(*ssa.Store); ok {
-					a := c.Of(st.Addr)
-					for _, f := range fields {
-						if strings.HasSuffix(a, f) {
-							fmt.Printf("%s\t%s\t%s = %s\n", p.Pos(st.Pos()), core.ShortKey(fn), a, c.Of(st.Val))
-						}
+				switch x := in.(type) {
+				case *ssa.TypeAssert:
+					if !x.CommaOk {
+						fmt.Printf("ASSERT\t%s\t%s\t%s\n", p.Pos(x.Pos()), core.ShortKey(fn), c.Of(x))
 					}
-					// element stores into these slices
-					if ia, ok := st.Addr.(*ssa.IndexAddr); ok {
-						x := c.Of(ia.X)
-						for _, f := range fields {
-							if strings.HasSuffix(x, f) {
-								fmt.Printf("%s\t%s\tELEM %s[...] = %s\n", p.Pos(st.Pos()), core.ShortKey(fn), x, c.Of(st.Val))
+				case *ssa.BinOp:
+					if x.Op == token.QUO || x.Op == token.REM {
+						if _, isC := x.Y.(*ssa.Const); !isC {
+							if b, ok := x.Type().Underlying().(*types.Basic); ok && b.Info()&types.IsInteger != 0 {
+								fmt.Printf("DIV\t%s\t%s\t%s\n", p.Pos(x.Pos()), core.ShortKey(fn), c.Of(x))
 							}
 						}
 					}
-				}
-				if call, ok := in.(*ssa.Call); ok {
-					if f := call.Call.StaticCallee(); f != nil && (strings.HasPrefix(f.String(), "sort.") || strings.HasPrefix(f.String(), "slices.")) {
-						fmt.Printf("%s\t%s\tSORT %s\n", p.Pos(call.Pos()), core.ShortKey(fn), c.Of(call))
+				case *ssa.Panic:
+					fmt.Printf("PANIC\t%s\t%s\n", p.Pos(x.Pos()), core.ShortKey(fn))
+				case *ssa.Slice:
+					lo, hi := "", ""
+					if x.Low != nil {
+						lo = c.Of(x.Low)
 					}
-					if b, ok := call.Call.Value.(*ssa.Builtin); ok && b.Name() == "copy" {
-						fmt.Printf("%s\t%s\tCOPY %s\n", p.Pos(call.Pos()), core.ShortKey(fn), c.Of(call))
+					if x.High != nil {
+						hi = c.Of(x.High)
 					}
+					if _, isAlloc := x.X.(*ssa.Alloc); isAlloc && lo == "" && hi == "" {
+						continue
+					}
+					fmt.Printf("SLICE\t%s\t%s\t%s [%s:%s]\n", p.Pos(x.Pos()), core.ShortKey(fn), c.Of(x.X), lo, hi)
+				case *ssa.IndexAddr:
+					if k, ok := x.Index.(*ssa.Const); ok {
+						if _, isAlloc := x.X.(*ssa.Alloc); isAlloc {
+							continue
+						}
+						fmt.Printf("CIDX\t%s\t%s\t%s [%s]\n", p.Pos(x.Pos()), core.ShortKey(fn), c.Of(x.X), k.Value)
+					}
+				case *ssa.Index:
+					if k, ok := x.Index.(*ssa.Const); ok {
+						fmt.Printf("CIDX\t%s\t%s\t%s [%s]\n", p.Pos(x.Pos()), core.ShortKey(fn), c.Of(x.X), k.Value)
+					}
+				case *ssa.Go:
+					fmt.Printf("GO\t%s\t%s\n", p.Pos(x.Pos()), core.ShortKey(fn))
 				}
 			}
 		}
